@@ -58,6 +58,40 @@ def _replay_cfg(ctx, cfg, fmt="text", limit=None, record=0):
         ctx.sample({"inputs": o["inputs"], "request_sequence": [s["r"] for s in o["seq"]], "expected_last": o["seq"][-1]["e"]})
 
 
+def _random_sequences(ctx, family, n_datasets, per_dataset, maxlen):
+    """code -> spec on RANDOM request sequences (seeded): executions of real Data objects are recorded through the hooks and
+    TLC decides, with Trace_DataImpl, whether each is a behaviour of the model -- all refinement invariants being evaluated at
+    every step.  No expected values exist on the Python side."""
+    res = tlc.run("MC_Dataset", "MC_Dataset_" + family, tag=ctx.pid + "_rnd_" + family, timeout_s=900)
+    ctx.add_tlc("MC_Dataset/%s (datasets for random sequences)" % family, res, {"Family": family})
+    rng = random.Random(ctx.seed + 17)
+    objs = [o for o in res.emitted if not o["err"]]
+    objs = rng.sample(objs, min(n_datasets, len(objs)))
+    jobs = []
+    for o in objs:
+        ds = {k: o[k] for k in ("fam", "inputs", "hasClim", "clim", "climType", "opts", "err", "times", "leads", "locs")}
+        nin = len(o["inputs"])
+        seqs = []
+        for _ in range(per_dataset):
+            seq = []
+            for _ in range(rng.randint(3, maxlen)):
+                axis = rng.choice(["all", "no", "time", "leadtime", "location"])
+                size = {"all": 1, "no": 1, "time": len(o["times"]), "leadtime": len(o["leads"]), "location": len(o["locs"])}[axis]
+                seq.append({"r": {"f": rng.choice([["obs"], ["fcst"], ["obs", "fcst"], ["fcst", "obs"]]), "i": rng.randint(1, nin), "a": axis, "k": rng.randint(1, size)}})
+            seqs.append(seq)
+        jobs.append((ds, seqs, "text", True))
+    recorded = []
+    for out in par.pmap(c18replay.check_group, jobs, chunk=1):
+        ctx.evaluations += out["n"]
+        for site, detail, rep in out["divs"]:
+            ctx.diverge(site, rep, detail=detail)
+        recorded += out["recorded"]
+    for j in jobs:
+        for seq in j[1]:
+            ctx.nontriv(str((j[0]["inputs"], [s["r"] for s in seq])))
+    _validate_traces(ctx, recorded, "random_" + family)
+
+
 def run(ctx):
     ctx.rule = ("case = (dataset with inputs that disagree on missing cells, sequence of <= 3 requests from the 24-request menu); "
                 "non-trivial = the sequence contains at least two different requests")
@@ -70,6 +104,7 @@ def run(ctx):
         _replay_cfg(ctx, "MC_DataImpl_C18EmitL2", limit=6000, record=1000)
         _replay_cfg(ctx, "MC_DataImpl_C18EmitL3", limit=3000, record=500)
         _replay_cfg(ctx, "MC_DataImpl_C18EmitMix", limit=4000, record=500)
+        _random_sequences(ctx, "C18Mix", 32, 10, 8)
     else:
         res = tlc.run("MC_DataImpl", "MC_DataImpl_C18QuickFixed", tag=ctx.pid + "_model", timeout_s=900, require_emit=False)
         ctx.add_tlc("MC_DataImpl_C18QuickFixed (all sequences <= 3, 16 datasets)", res, {"MaxLen": 3})
@@ -79,6 +114,8 @@ def run(ctx):
         _replay_cfg(ctx, "MC_DataImpl_C18EmitL2", fmt="netcdf")
         _replay_cfg(ctx, "MC_DataImpl_C18EmitL3", record=4000)
         _replay_cfg(ctx, "MC_DataImpl_C18EmitMix", record=4000)
+        _random_sequences(ctx, "C18Mix", 32, 60, 12)
+        _random_sequences(ctx, "C18Quick", 16, 60, 12)
         ctx.exhaustive = True
     par.clean_workdirs()
 
